@@ -1,7 +1,9 @@
 #!/bin/bash
 # try_seed.sh <patch> <check>...: apply a seeded change to /repo, run the named quick checks, revert.
+# Evidence and replay files of these trial runs go to a scratch root (ZVERIF_ROOT), never to /verif/evidence.
 patch="$1"; shift
 cd /repo || exit 2
+export ZVERIF_ROOT=$(mktemp -d /tmp/try-root.XXXXXX); cp /verif/known_findings.json "$ZVERIF_ROOT/"
 git diff --quiet || { echo "/repo working tree not clean"; exit 2; }
 git apply "$patch" || { echo "patch does not apply"; exit 2; }
 for c in "$@"; do
@@ -12,3 +14,4 @@ for c in "$@"; do
   echo "$out" | grep -E "^VIOLATION|^  observed|^  case|MACHINERY|quick:" | head -7 | cut -c1-400
 done
 git checkout -- . && git status --short | head -3
+rm -rf "$ZVERIF_ROOT"
